@@ -52,14 +52,11 @@ def dump_states(module, cfg, workdir, keep=None, **kw):
     return res, states
 
 
-def witnesses_reached(module, workdir, names, **cfg_kw):
-    """Vacuity guard. Every Witness_* predicate of `module` is a negated reachability claim; one TLC run
-    (-workers 1) evaluates all of them on every reachable state through CONSTRAINT RecordWitnesses and prints the
-    set of those TLC found violated (= reached) in POSTCONDITION PrintWitnesses. Raises MachineryError when a
-    witness was not reached."""
-    cfg = tlc.write_cfg(os.path.join(workdir, "witness_%s.cfg" % module), constraints=["RecordWitnesses"],
-                        postcondition="PrintWitnesses", deadlock=False, **cfg_kw)
-    res = tlc.run_tlc(module, cfg, workdir, workers=1, timeout=600, coverage=True)
+def witnesses_in(res, names, module="?"):
+    """Vacuity guard, reading side. The run must have been configured with CONSTRAINT RecordWitnesses and
+    POSTCONDITION PrintWitnesses (-workers 1): every Witness_* predicate is a negated reachability claim, the
+    constraint evaluates all of them on every reachable state and the postcondition prints the set of those TLC
+    found violated (= reached). Raises MachineryError when one of `names` was not reached."""
     got = None
     for v in res.printed("WITNESSES"):
         if isinstance(v, tuple) and len(v) == 2 and v[0] == "WITNESSES":
@@ -69,6 +66,15 @@ def witnesses_reached(module, workdir, names, **cfg_kw):
     missing = sorted(set(names) - got)
     if missing:
         raise tlc.MachineryError("vacuity witnesses not reached in %s: %s" % (module, missing))
+    return got
+
+
+def witnesses_reached(module, workdir, names, **cfg_kw):
+    """Vacuity guard as a separate small TLC run (see witnesses_in)."""
+    cfg = tlc.write_cfg(os.path.join(workdir, "witness_%s.cfg" % module), constraints=["RecordWitnesses"],
+                        postcondition="PrintWitnesses", deadlock=False, **cfg_kw)
+    res = tlc.run_tlc(module, cfg, workdir, workers=1, timeout=600, coverage=True)
+    witnesses_in(res, names, module)
     return res
 
 
@@ -460,10 +466,8 @@ def refresh_signature(st, d):
                 spec, code = set(d[k]["spec"]), set(d[k]["code"])
                 return "refresh:hosts:%s" % ("+".join(x for x, c in (("extra", code - spec), ("missing", spec - code)) if c))
             return "refresh:%s" % k
-    same_members = set(st["known"]) == set(st["prev"])
-    same_loc = same_members and all(st["known"][h]["loc"] == st["prev"][h]["loc"] for h in st["known"])
-    if same_members:
-        return "refresh:token-change-no-rebuild" if same_loc else "refresh:token-change-no-rebuild:control-location-changed"
+    if set(st["known"]) == set(st["prev"]):
+        return "refresh:token-change-no-rebuild"
     return "refresh:ring-stale-after-membership-change"
 
 
@@ -596,3 +600,173 @@ def cover_refresh_edges(states, replayer, rng, max_init=None, stop=lambda: False
                 break
     replayer.close()
     return covered, total
+
+
+# ====================================================================== C43 schema agreement
+SCHEMA_VERSIONS = {"A": uuid.UUID(int=0xA), "B": uuid.UUID(int=0xB), "C": uuid.UUID(int=0xC)}
+_IS_UP = {"up": True, "down": False, "none": None}
+
+
+class AgreeHarness:
+    """One simulated cluster (control node 0, known peers as FakeNodes and metadata hosts; unknown peers exist only
+    as rows of the schema-version query).  Every pair of schema-version queries (= one poll) is answered from the
+    next snapshot of the current walk; Host.is_up of the known peers is set to the snapshot's host states just
+    before the poll is answered."""
+
+    def __init__(self, kpeers, upeers, meta_enabled):
+        self.kpeers, self.upeers = sorted(kpeers), sorted(upeers)
+        self.world = SimWorld()
+        self.nodes = {}
+        for h in [0] + self.kpeers:
+            self.nodes[h] = self.world.add_node(FakeNode(addr(h), host_id=hid(h), tokens=tokens_of(h, 1),
+                                                         release_version="3.11.4"))
+        self.ctl = self.nodes[0]
+        self.ctl.peer_rows_override = [self.nodes[h].as_peer() for h in self.kpeers]
+        self.cluster = make_cluster(self.world, [addr(0)], lbp=RecLBP(), schema_metadata_enabled=bool(meta_enabled))
+        self.session = self.cluster.connect(wait_for_all_pools=True)
+        self.cc = self.cluster.control_connection
+        self.cc._time = self.world.clock          # class attribute bound to the real `time` module at import
+        self.cluster.executor.inline = False
+        self.hosts = {host_no(h.address): h for h in self.cluster.metadata.all_hosts()}
+        self.ctl.system_hook = self._hook
+        self.snaps = []
+        self.polls = []            # (virtual time, snapshot index) of every poll the driver made
+        self.t0 = 0.0
+
+    def _hook(self, node, conn, f, req):
+        q = req["query"]
+        if "schema_version FROM system.peers" in q and not q.startswith("SELECT *"):
+            i = len(self.polls)
+            self.polls.append(self.world.clock.now - self.t0)
+            s = self.snaps[min(i, len(self.snaps) - 1)]
+            self._cur = s
+            for n, p in enumerate(self.kpeers):
+                self.hosts[p].is_up = _IS_UP[s["st"][n]]
+            allp = self.kpeers + self.upeers
+            v2 = "peers_v2" in q
+            rows = []
+            for n, p in enumerate(allp):
+                ver = wire.c_uuid(SCHEMA_VERSIONS[s["pv"][n]])
+                if v2:
+                    rows.append([wire.c_uuid(hid(p)), wire.c_inet(addr(p)), wire.c_int(7000), wire.c_inet(addr(p)),
+                                 wire.c_int(9042), ver])
+                else:
+                    rows.append([wire.c_inet(addr(p)), wire.c_uuid(hid(p)), wire.c_inet(addr(p)), ver])
+            if v2:
+                cols = [("host_id", wire.T_UUID), ("peer", wire.T_INET), ("peer_port", wire.T_INT),
+                        ("native_address", wire.T_INET), ("native_port", wire.T_INT), ("schema_version", wire.T_UUID)]
+            else:
+                cols = [("peer", wire.T_INET), ("host_id", wire.T_UUID), ("rpc_address", wire.T_INET),
+                        ("schema_version", wire.T_UUID)]
+            node.send(conn, f.version, f.stream, wire.RESULT, wire.body_rows(cols, rows, ks="system", table="peers"))
+            return True
+        if q.startswith("SELECT schema_version FROM system.local"):
+            s = getattr(self, "_cur", None) or self.snaps[0]
+            node.send(conn, f.version, f.stream, wire.RESULT, wire.body_rows(
+                [("schema_version", wire.T_UUID)], [[wire.c_uuid(SCHEMA_VERSIONS[s["local"]])]], ks="system", table="local"))
+            return True
+        return False
+
+    def _begin(self, wait_tenths, snaps):
+        self.cluster.max_schema_agreement_wait = wait_tenths / 10.0
+        self.snaps = list(snaps)
+        self.polls = []
+        self._cur = None
+        self.t0 = self.world.clock.now
+        del self.ctl.received[:]
+
+    def _end(self):
+        for p in self.kpeers:
+            self.hosts[p].is_up = True
+        return [int(round(x * 10)) for x in self.polls]
+
+    def direct(self, wait_tenths, snaps):
+        """cluster.control_connection.wait_for_schema_agreement() -> {"verdict", "polls" (times in tenths)}."""
+        self._begin(wait_tenths, snaps)
+        out = {"error": None}
+        try:
+            out["verdict"] = self.cc.wait_for_schema_agreement()
+        except Exception as exc:
+            out["verdict"] = "raised"
+            out["error"] = "%s: %s" % (type(exc).__name__, str(exc)[:200])
+        out["polls"] = self._end()
+        return out
+
+    def ddl(self, wait_tenths, snaps):
+        """A CREATE TABLE request answered with a SCHEMA_CHANGE result -> {"future": is_schema_agreed, "polls"}."""
+        self._begin(wait_tenths, snaps)
+        out = {"error": None, "future": "unset"}
+        try:
+            fut = self.session.execute_async("CREATE TABLE ks.t (k int PRIMARY KEY)")
+            pend = [(n, p) for n in self.nodes.values() for p in n.pending]
+            if len(pend) != 1:
+                raise tlc.MachineryError("expected exactly one pending DDL request, got %s" % (pend,))
+            node, p = pend[0]
+            node.respond(p, wire.RESULT, wire.body_schema_change(p.frame.version, "CREATED", "TABLE", "ks", "t"))
+            self.cluster.executor.drain()            # runs refresh_schema_and_set_result
+            if fut._final_result is ccluster._NOT_SET and fut._final_exception is None:
+                out["future"] = "unset"
+                out["error"] = "the request never completed"
+            else:
+                out["future"] = fut.is_schema_agreed
+                if fut._final_exception is not None:
+                    out["error"] = repr(fut._final_exception)[:200]
+        except tlc.MachineryError:
+            raise
+        except Exception as exc:
+            out["future"] = "raised"
+            out["error"] = "%s: %s" % (type(exc).__name__, str(exc)[:200])
+        out["polls"] = self._end()
+        return out
+
+    def shutdown(self):
+        try:
+            self.cluster.shutdown()
+        except Exception:
+            pass
+
+
+_YESNO = {"yes": True, "no": False}
+
+
+def agree_run(harnesses, walk):
+    """Execute one complete behaviour of ControlAgree.tla (list of states from Init to a terminal state) on the real
+    objects; returns (got, diff)."""
+    init = walk[0]
+    polls = [s for s in walk[1:] if s["act"]["name"] == "Poll"]
+    final = walk[-1]
+    snaps = [s["snap"] for s in polls]
+    mode = init["mode"]
+    if mode == "direct":
+        got = harnesses["nometa"].direct(init["wait"], snaps)
+    else:
+        got = harnesses["meta" if mode == "ddl_meta" else "nometa"].ddl(init["wait"], snaps)
+    d = {}
+    exp_times = [s["at"] for s in polls]
+    if got["polls"] != exp_times:
+        d["polls"] = {"spec": exp_times, "code": got["polls"]}
+    if mode == "direct":
+        exp = _YESNO.get(final["verdict"])
+        if got["verdict"] is not exp:
+            d["verdict"] = {"spec": exp, "code": got["verdict"], "error": got["error"]}
+    else:
+        exp = _YESNO.get(final["future"])
+        if got["future"] is not exp:
+            d["is_schema_agreed"] = {"spec": exp, "code": got["future"], "error": got["error"]}
+    return got, d
+
+
+def agree_signature(walk, d):
+    """Stable class of a C43 divergence."""
+    mode = walk[0]["mode"]
+    if "polls" in d:
+        spec, code = d["polls"]["spec"], d["polls"]["code"]
+        if len(code) < len(spec):
+            return "agree:%s:stopped-polling-early" % mode
+        if len(code) > len(spec):
+            return "agree:%s:polled-after-%s" % (mode, "agreement" if walk[-1]["status"] == "agreed" or
+                                                 any(s["status"] == "agreed" for s in walk) else "deadline")
+        return "agree:%s:poll-times" % mode
+    if "verdict" in d:
+        return "agree:direct:verdict-%s-instead-of-%s" % (d["verdict"]["code"], d["verdict"]["spec"])
+    return "agree:%s:is_schema_agreed-%s-instead-of-%s" % (mode, d["is_schema_agreed"]["code"], d["is_schema_agreed"]["spec"])
